@@ -85,6 +85,26 @@ pub(crate) fn stop_gap() {
     }
 }
 
+type SrvHandlesCb = Box<dyn FnMut(usize, Vec<(usize, bool)>)>;
+thread_local! {
+    static SRV_HANDLES_CB: RefCell<Option<SrvHandlesCb>> = RefCell::new(None);
+}
+
+/// End-to-end scenarios: observer of the server's own worker-handle vector, called on the thread that polls the
+/// `Server` future after every `WorkerFaulted` command with the faulted index and (idx, still listening) per handle.
+pub fn set_srv_handles_cb(cb: SrvHandlesCb) {
+    SRV_HANDLES_CB.with(|c| *c.borrow_mut() = Some(cb));
+}
+
+/// Called by `handle_cmd(WorkerFaulted)` after the replacement handle has been stored.
+pub(crate) fn srv_handles(idx: usize, handles: Vec<(usize, bool)>) {
+    let cb = SRV_HANDLES_CB.with(|c| c.borrow_mut().take());
+    if let Some(mut cb) = cb {
+        cb(idx, handles);
+        SRV_HANDLES_CB.with(|c| *c.borrow_mut() = Some(cb));
+    }
+}
+
 /// Yield point inside the accept thread.
 pub(crate) fn point(kind: &'static str, arg: usize) {
     if !STEPPED.with(|c| c.get()) {
